@@ -63,7 +63,7 @@ def install(eng):
     eng.enumerator("ops-command-lines-on-failure", ["C17"], OPS + BACKEND, enum_ops.run([enum_ops.check_submit]))
     eng.enumerator("ops-state-tables", ["C08"], OPS + BACKEND, enum_ops.run([enum_ops.check_states]), always=True)
     # C10: compile_script has no unbounded contract (order of option lines): this bounded stand-in decides that clause
-    eng.enumerator("job-scripts-under-bash", ["C10"], OPS, enum_ops.run([enum_ops.check_scripts]), always=True)
+    eng.enumerator("job-scripts-under-bash", ["C10"], OPS, enum_ops.run([enum_ops.check_scripts, enum_ops.check_logs]), always=True)
     eng.enumerator("option-resolution", ["C10"], ["gwf.scheduling:submit_backend"] + CALLBACKS,
                    enum_ops.run([enum_ops.check_option_resolution]))
     WF = [k for k in eng.contracts if k.startswith(("gwf.workflow:", "gwf.utils:", "gwf.core:_check_path", "gwf.core:_has_nonprintable"))]
